@@ -325,6 +325,66 @@ def witness(name):
         res = opt(SCORES['neginf'], count=3, seed=jax.random.PRNGKey(2))
         c = np.asarray(res.features.continuous)
         return {'reproduced': bool(np.isnan(c).any()), 'continuous': jsonable(c), 'expected': 'continuous features inside [0, 1]'}
+    if name == 'oov_prior_category':
+        conv = make_converter(2, (3,), False)
+        pf = conv.to_features([vz.Trial(parameters={'x0': 0.6, 'x1': 0.5, 'c0': 'not-a-category'})])
+        opt = vb.VectorizedOptimizerFactory(strategy_factory=es.VectorizedEagleStrategyFactory(), max_evaluations=60, suggestion_batch_size=5)(conv)
+        res = opt(lambda x, s: (x.categorical.padded_array[..., 0] == 3).astype(jnp.float32), count=2, seed=key, prior_features=pf)
+        k = np.asarray(res.features.categorical)
+        return {'reproduced': bool((k[..., 0] >= 3).any()), 'prior_categorical': jsonable(pf.categorical.padded_array), 'returned_categorical': jsonable(k),
+                'expected': 'categorical features in [0, 3) (the parameter has 3 categories; 3 is the out-of-vocabulary index)'}
+    # ---- bounded native stand-ins (clauses that are not proved deductively in full generality) ----------------------------
+    if name == 'standin_in_cube_any_prior':
+        conv = make_converter(2, (3,), False)
+        pf = conv.to_features([vz.Trial(parameters={'x0': 1.6, 'x1': 0.5, 'c0': '1'}), vz.Trial(parameters={'x0': -0.7, 'x1': 0.2, 'c0': '0'})])
+        bad = None
+        for sc_name, sc in (('x0', lambda x, s: cont_in(x)[..., 0]), ('-x0', lambda x, s: -cont_in(x)[..., 0])):
+            opt = vb.VectorizedOptimizerFactory(strategy_factory=es.VectorizedEagleStrategyFactory(), max_evaluations=30, suggestion_batch_size=5)(conv)
+            res = opt(sc, count=2, seed=key, prior_features=pf)
+            c = np.asarray(res.features.continuous)
+            if np.isnan(c).any() or (c < 0).any() or (c > 1).any():
+                bad = {'prior_continuous': jsonable(pf.continuous.padded_array), 'score': sc_name, 'returned_continuous': jsonable(c)}
+        return {'held': bad is None, 'failing_input': bad, 'bound': 'eagle, priors [1.6, 0.5] and [-0.7, 0.2] outside the cube, score +-x0, count 2, 30 evaluations'}
+    if name == 'standin_no_placeholder':
+        bad, runs = None, 0
+        for strat, nc, cats, M, B, count in (('eagle', 3, (3,), 20, 25, 2), ('random', 2, (3,), 7, 5, 6), ('eagle', 2, (), 12, 5, 3)):
+            conv = make_converter(nc, cats, False)
+            fac = es.VectorizedEagleStrategyFactory() if strat == 'eagle' else rvo.random_strategy_factory
+            opt = vb.VectorizedOptimizerFactory(strategy_factory=fac, max_evaluations=M, suggestion_batch_size=B)(conv)
+            sc = lambda x, s: -jnp.sum((cont_in(x) - 0.7) ** 2, axis=-1) - 0.5
+            res = opt(sc, count=count, seed=key)
+            runs += 1
+            v = check_result(res, conv, nc, cats, count, sc, None, key, allow_placeholder=False)
+            if v:
+                bad = {'strategy': strat, 'n_continuous': nc, 'categories': list(cats), 'max_evaluations': M, 'suggestion_batch_size': B, 'count': count,
+                       'violated': v, 'rewards': jsonable(res.rewards), 'continuous': jsonable(res.features.continuous)}
+        return {'held': bad is None, 'failing_input': bad, 'bound': '%d runs with count <= max_evaluations (budget below one batch, budget not a multiple of the batch), finite scores' % runs}
+    if name == 'standin_eagle_priors':
+        # eagle: n_prior <= pool space for priors and ceil(max_evaluations / batch) * batch >= pool_size  =>  best returned >= best prior score
+        bad, runs = None, 0
+        for nc, cats, nprior, M, B in ((2, (3,), 12, 50, 25), (12, (), 40, 40, 25), (2, (3,), 7, 25, 5)):
+            conv = make_converter(nc, cats, False)
+            rs = np.random.RandomState(nprior)
+            trs = [vz.Trial(parameters=dict([('x%d' % i, float(rs.rand())) for i in range(nc)] + [('c%d' % i, str(int(rs.randint(k)))) for i, k in enumerate(cats)]))
+                   for _ in range(nprior)]
+            pf = conv.to_features(trs)
+            target = np.asarray(pf.continuous.padded_array)[0]        # the OLDEST prior is the best one
+
+            def sc(x, s, target=target):
+                d = jnp.sum((cont_in(x) - jnp.asarray(target)) ** 2, axis=-1)
+                return jnp.where(d < 1e-12, 10.0, -d)
+            fac = es.VectorizedEagleStrategyFactory()
+            opt = vb.VectorizedOptimizerFactory(strategy_factory=fac, max_evaluations=M, suggestion_batch_size=B)(conv)
+            pool, steps = opt.strategy.pool_size, -(-M // B)
+            if not (nprior <= pool - int(pool * (1 - opt.strategy.config.prior_trials_pool_pct)) and steps * B >= pool):
+                continue
+            res = opt(sc, count=1, seed=key, prior_features=pf)
+            runs += 1
+            best_prior = float(np.max(np.asarray(sc(pf, None))))
+            if not float(np.asarray(res.rewards)[0]) >= best_prior:
+                bad = {'n_continuous': nc, 'categories': list(cats), 'n_prior': nprior, 'max_evaluations': M, 'suggestion_batch_size': B, 'pool_size': pool, 'best_prior_score': best_prior,
+                       'best_returned': jsonable(res.rewards)}
+        return {'held': bad is None, 'failing_input': bad, 'bound': '%d eagle runs (priors inside the cube, n_prior <= pool space, ceil(budget/batch)*batch >= pool_size)' % runs}
     return {'error': 'unknown witness %s' % name}
 
 
